@@ -30,13 +30,18 @@ thing for a service that is always ready): a pending answer makes the response f
 same step), a readiness error of the backup is a failure of the backup (`FallbackFailed`), with no
 backup call.
 
-The user-supplied functions of the configuration are fixed, injective-enough test functions
-(`strategyValue` … below); each of their invocations is an event (`callback`).
+The user-supplied functions of the configuration (handle predicate, value, value function,
+`from_error`, `from_request_error`, error transformation) are PARAMETERS of the model (`Cfg`): every
+definition and every theorem is about arbitrary functions. The functions the harness hands to the
+real builder — fixed, injective-enough test functions (`strategyValue` … below) — are the instance
+`test` the line-protocol machine runs. Each invocation of a user function is an event (`callback`).
 
 Outside the machine, as pure functions of a delivered result: what the caller sees of it through
 `FallbackError`'s own API (accessors, `map`, `clone`: `postRun`), and a second fallback layer stacked
 on top (`upperFinish` = the decision function once more, on the lower layer's result; `stackLog` = the
-log of the stack as a function of this machine's log).
+log of the stack as a function of this machine's log). `callerLog` = what the caller logs, as a function
+of the (stack's) log: every delivered result through the caller's `postRun` — the line-protocol machine
+prints exactly `callerLog` of each new stretch of the log.
 -/
 namespace TR.Fallback
 
@@ -56,16 +61,6 @@ inductive Rdy
   | error      -- `Poll::Ready(Err(readyErr))`
 deriving DecidableEq, Repr, Inhabited
 
-structure Cfg where
-  strat  : Strategy
-  handle : Option Nat      -- handle predicate as a bit mask over error kinds; `none` = no predicate
-  val    : Nat             -- the configured static value / base of the value function
-  /-- answers of the wrapped service to successive `poll_ready` calls (on any clone); ready once exhausted -/
-  ready  : List Rdy := []
-  /-- the same for the backup service of the service strategy -/
-  bready : List Rdy := []
-deriving Repr
-
 structure Request where
   c   : Nat
   tag : Nat
@@ -81,6 +76,29 @@ structure IErr where
   kind : Nat
   v    : Nat
 deriving DecidableEq, Repr, Inhabited
+
+/-- A configuration of the layer: the strategy and the user-supplied functions, all arbitrary.
+(`Req`, `Res`, `E` of the code are the payload types `Request`, `Resp`, `IErr`; a user function is a
+total function of its arguments — except the value function, a closure `Fn() -> Res` without
+arguments, which may be stateful: `valueFn n` is what its invocation number `n` returns.) -/
+structure Cfg where
+  strat  : Strategy
+  /-- the handle predicate (`.handle(|e| …)`); `none` = no predicate configured -/
+  pred   : Option (IErr → Bool)
+  /-- `FallbackStrategy::Value(v)`: the configured static value -/
+  value  : Resp
+  /-- `FallbackStrategy::ValueFn(f)`: the response returned by invocation number `n` of `f` -/
+  valueFn : Nat → Resp
+  /-- `FallbackStrategy::FromError(f)` -/
+  fromError : IErr → Resp
+  /-- `FallbackStrategy::FromRequestError(f)` -/
+  fromReqErr : Request → IErr → Resp
+  /-- `FallbackStrategy::Exception(t)` -/
+  exception : IErr → IErr
+  /-- answers of the wrapped service to successive `poll_ready` calls (on any clone); ready once exhausted -/
+  ready  : List Rdy := []
+  /-- the same for the backup service of the service strategy -/
+  bready : List Rdy := []
 
 /-- result of the inner (or backup) service: `Result<Resp, IErr>` -/
 inductive IRes
@@ -107,20 +125,32 @@ inductive Callback
   | exception (e : IErr)
 deriving DecidableEq, Repr, Inhabited
 
-/-! ## the test functions the harness configures the layer with -/
+/-! ## the handle predicate -/
 
-/-- the handle predicate: bit `kind` of the mask -/
+/-- does the layer handle the error: the handle predicate says so; every error, if there is none
+(lib.rs:308 `handle_predicate.as_ref().map(|p| p(&error)).unwrap_or(true)`) -/
 def accepts (cfg : Cfg) (e : IErr) : Bool :=
-  match cfg.handle with
+  match cfg.pred with
   | none => true
-  | some m => m.testBit e.kind
+  | some p => p e
 
-def strategyValue (cfg : Cfg) : Resp := ⟨cfg.val, 0, 0⟩
+/-! ## the test functions the harness configures the layer with: the instance `test` -/
+
+/-- the test predicate: bit `kind` of the mask -/
+def maskPred (m : Nat) (e : IErr) : Bool := m.testBit e.kind
+def strategyValue (val : Nat) : Resp := ⟨val, 0, 0⟩
 /-- `n` = number of earlier invocations of the value function -/
-def strategyValueFn (cfg : Cfg) (n : Nat) : Resp := ⟨cfg.val + n, 0, 1⟩
+def strategyValueFn (val : Nat) (n : Nat) : Resp := ⟨val + n, 0, 1⟩
 def strategyFromError (e : IErr) : Resp := ⟨e.v, 0, e.kind⟩
 def strategyFromReqErr (rq : Request) (e : IErr) : Resp := ⟨e.v, rq.c, rq.tag * 100 + e.kind⟩
 def strategyException (e : IErr) : IErr := ⟨e.kind + 10, e.v⟩
+
+/-- the configuration the harness builds from a case header: strategy, predicate as a bit mask over
+error kinds (`none` = no predicate), `val` = the configured static value / base of the value function -/
+def test (strat : Strategy) (handle : Option Nat) (val : Nat) (ready : List Rdy := []) (bready : List Rdy := []) : Cfg :=
+  { strat := strat, pred := handle.map maskPred, value := strategyValue val, valueFn := strategyValueFn val,
+    fromError := strategyFromError, fromReqErr := strategyFromReqErr, exception := strategyException,
+    ready := ready, bready := bready }
 
 /-! ## the decision logic (lib.rs:286 `match result`, 308 predicate gate, 349 strategy match) -/
 
@@ -132,18 +162,18 @@ deriving DecidableEq, Repr, Inhabited
 
 /-- the predicate is consulted only when one is configured -/
 def predCalls (cfg : Cfg) (e : IErr) : List Callback :=
-  match cfg.handle with
+  match cfg.pred with
   | none => []
   | some _ => [.predicate e (accepts cfg e)]
 
 def applyStrategy (cfg : Cfg) (rq : Request) (n : Nat) (e : IErr) : Act :=
   match cfg.strat with
-  | .value      => .finish (predCalls cfg e) (.ok (strategyValue cfg))
-  | .valueFn    => .finish (predCalls cfg e ++ [.valueFn n]) (.ok (strategyValueFn cfg n))
-  | .fromError  => .finish (predCalls cfg e ++ [.fromError e]) (.ok (strategyFromError e))
-  | .fromReqErr => .finish (predCalls cfg e ++ [.fromReqErr rq e]) (.ok (strategyFromReqErr rq e))
+  | .value      => .finish (predCalls cfg e) (.ok cfg.value)
+  | .valueFn    => .finish (predCalls cfg e ++ [.valueFn n]) (.ok (cfg.valueFn n))
+  | .fromError  => .finish (predCalls cfg e ++ [.fromError e]) (.ok (cfg.fromError e))
+  | .fromReqErr => .finish (predCalls cfg e ++ [.fromReqErr rq e]) (.ok (cfg.fromReqErr rq e))
   | .service    => .backup (predCalls cfg e)
-  | .exception  => .finish (predCalls cfg e ++ [.exception e]) (.inner (strategyException e))
+  | .exception  => .finish (predCalls cfg e ++ [.exception e]) (.inner (cfg.exception e))
 
 /-- `n` = number of invocations of the value function so far -/
 def afterInner (cfg : Cfg) (rq : Request) (n : Nat) : IRes → Act
@@ -499,7 +529,7 @@ def stackLog (u : Cfg) (log : List FEv) : List SEv := liftLog u 0 [] log
 /-- the documented meaning of a shortcut constructor (`FallbackLayer::value(v)`, `::value_fn(f)`,
 `::from_error(f)`, `::from_request_error(f)`, `::service(s)`, `::exception(f)`, layer.rs:45-152):
 the builder with that strategy and nothing else — no predicate -/
-def shortcut (strat : Strategy) (val : Nat) : Cfg := { strat := strat, handle := none, val := val }
+def shortcut (strat : Strategy) (val : Nat) : Cfg := test strat none val
 
 /-! ## rendering and line protocol -/
 
@@ -583,27 +613,45 @@ def parsePost (s : String) : List PostStep :=
 def View.render (c : Nat) (v : View) : String :=
   s!"view {c} {b01 v.isInner} {b01 v.isFailed} {v.ref.kind} {v.ref.v} {v.into.kind} {v.into.v}"
 
-/-- what the caller logs for one event of the (stack's) log: the upper layer's test functions log
-their invocations with a `u` in front; a result goes through the caller's post-processing first -/
-def renderSEv (sx bx : Bool) (posts : List (Nat × List PostStep)) : SEv → List Ev
-  | .up _ cb => [.raw ("u" ++ cb.render)]
+/-- what the caller of the layer (or of the stack) logs: the events of the (stack's) log, and what the
+accessors of `FallbackError` show it on the way -/
+inductive CEv
+  | ev (e : SEv)
+  | view (c : Nat) (v : View)
+deriving DecidableEq, Repr, Inhabited
+
+/-- the post-processing steps of caller `c` (`post=` of its `arrive`; none if it gave none) -/
+def stepsOf (posts : List (Nat × List PostStep)) (c : Nat) : List PostStep := (lookup posts c).getD []
+
+/-- What the caller logs for one event of the (stack's) log: a result goes through the caller's
+post-processing first — the views it takes are logged before the `resp` line, and `resp` / `result` show
+what it finally holds (`postRun`); everything else is logged as it is. -/
+def callerSees (posts : List (Nat × List PostStep)) : SEv → List CEv
   | .low (.resp c o) =>
-      ((postRun ((lookup posts c).getD []) o).1.map fun v => Ev.raw (v.render c))
-        ++ [(FEv.resp c (postRun ((lookup posts c).getD []) o).2).toEv sx bx]
-  | .low (.result c o) => [(FEv.result c (postRun ((lookup posts c).getD []) o).2).toEv sx bx]
-  | .low e => [e.toEv sx bx]
+      (postRun (stepsOf posts c) o).1.map (.view c) ++ [.ev (.low (.resp c (postRun (stepsOf posts c) o).2))]
+  | .low (.result c o) => [.ev (.low (.result c (postRun (stepsOf posts c) o).2))]
+  | e => [.ev e]
+
+/-- the caller's log as a function of the (stack's) log -/
+def callerLog (posts : List (Nat × List PostStep)) (l : List SEv) : List CEv := (l.map (callerSees posts)).flatten
+
+/-- the upper layer's test functions log their invocations with a `u` in front -/
+def CEv.toEv (sx bx : Bool) : CEv → Ev
+  | .view c v => .raw (v.render c)
+  | .ev (.up _ cb) => .raw ("u" ++ cb.render)
+  | .ev (.low e) => e.toEv sx bx
 
 /-- `probe strategy c= tag= kind= v=`: the caller builds the `FallbackStrategy` value of the header's
 strategy by hand (same test functions, value-function counter 0, a backup closure that echoes the
 request), CLONES it (lib.rs:207) and applies the clone to the sample request and error -/
 def probeStrategy (cfg : Cfg) (rq : Request) (e : IErr) : String :=
   match cfg.strat with
-  | .value => s!"strategy value {(Outcome.ok (strategyValue cfg)).detail}"
-  | .valueFn => s!"strategy value_fn {(Outcome.ok (strategyValueFn cfg 0)).detail}"
-  | .fromError => s!"strategy from_error {(Outcome.ok (strategyFromError e)).detail}"
-  | .fromReqErr => s!"strategy from_request_error {(Outcome.ok (strategyFromReqErr rq e)).detail}"
+  | .value => s!"strategy value {(Outcome.ok cfg.value).detail}"
+  | .valueFn => s!"strategy value_fn {(Outcome.ok (cfg.valueFn 0)).detail}"
+  | .fromError => s!"strategy from_error {(Outcome.ok (cfg.fromError e)).detail}"
+  | .fromReqErr => s!"strategy from_request_error {(Outcome.ok (cfg.fromReqErr rq e)).detail}"
   | .service => s!"strategy service {(Outcome.ok ⟨rq.tag, rq.c, rq.tag⟩).detail}"
-  | .exception => s!"strategy exception {(Outcome.inner (strategyException e)).detail}"
+  | .exception => s!"strategy exception {(Outcome.inner (cfg.exception e)).detail}"
 
 /-- state of the line-protocol machine: the lower instance's state, the upper layer's configuration
 (header `upper=<strategy> [uhandle=<mask>] [uval=<n>]`) and each caller's post-processing steps.
@@ -624,22 +672,21 @@ structure MS where
 
 /-- what the caller logs for a new stretch of the lower instance's log -/
 def MS.observe (m : MS) (new : List FEv) : List Ev :=
-  ((match m.up with
+  (callerLog m.posts (match m.up with
     | none => new.map SEv.low
-    | some u => liftLog u m.acc.1 m.acc.2 new).map (renderSEv m.sx m.bx m.posts)).flatten
+    | some u => liftLog u m.acc.1 m.acc.2 new)).map (CEv.toEv m.sx m.bx)
 
 def parseUpper (kv : Kv) : Option Cfg :=
   match kv.get "upper" with
   | none => none
   | some "service" => none
-  | some st => some { strat := parseStrategy st, handle := kv.optNat "uhandle", val := kv.nat "uval" 0 }
+  | some st => some (test (parseStrategy st) (kv.optNat "uhandle") (kv.nat "uval" 0))
 
 def machine : Machine where
   σ := MS
   init kv :=
-    let cfg : Cfg := { strat := parseStrategy (kv.str "strategy" "value"), handle := kv.optNat "handle",
-                       val := kv.nat "val" 0, ready := parseReady (kv.str "ready" ""),
-                       bready := parseReady (kv.str "bready" "") }
+    let cfg : Cfg := test (parseStrategy (kv.str "strategy" "value")) (kv.optNat "handle") (kv.nat "val" 0)
+                       (parseReady (kv.str "ready" "")) (parseReady (kv.str "bready" ""))
     { sx := (kv.get "ready").isSome, bx := (kv.get "bready").isSome, cfg := cfg, up := parseUpper kv }
   step := fun m ws =>
     match ws with
